@@ -61,6 +61,12 @@ def rules(P, R, prefix="C07"):
                         n["sp"], kt, "helper reads key `%s`, not the requested digest" % kt)
             R.judge(len(sends) == 1, prefix + ".Y1", key(hr, "exactly one reply per request" + tag), hr.sp, str(len(sends)),
                     "helper has %d network sends" % len(sends))
+            # Y6 (structural half): the helper's receive loop is left only when its channel closes
+            wl0 = next((n for n in hr.nodes() if n["k"] in ("while", "loop")), None)
+            if wl0 is not None:
+                exits = [x for x in ir.walk(wl0["body"], into_closures=False) if x["k"] in ("break", "ret")]
+                R.judge(not exits, prefix + ".Y6", key(hr, "helper loop has no exit" + tag), wl0["sp"], "",
+                        "the sync helper leaves its request loop at %s: after that no block request is ever answered" % [x["sp"] for x in exits])
             # the reply is sent for EVERY stored block that decodes: no extra condition (size caps, allow-lists ..)
             wl = next((n for n in hr.nodes() if n["k"] == "while"), None)
             if sends and reads and wl is not None:
@@ -258,12 +264,33 @@ def rules(P, R, prefix="C07"):
             R.judge(routed, prefix + ".Y5", key(dsp, "SyncRequest(missing, origin) routed unchanged to the helper" + tag), dsp.sp, "",
                     "SyncRequest is not forwarded as (missing, origin) to the helper's channel")
             R.judge("Propose" in handlers, prefix + ".Y5", "Propose replies enter through the proposal handler" + tag, "", "", "no Propose handler")
+            # a sync reply is an ordinary Propose of an OLD round: the handler must not filter proposals by anything but
+            # leader / validity / payload availability, or missing ancestors are dropped and their descendants wait forever
+            if "Propose" in handlers and loopback is not None:
+                h, _c = handlers["Propose"]
+                hctx = env.ctx(h)
+                from ..analysis import atoms_of as _atoms
+                for n in [x for x in h.nodes() if x["k"] in ("call", "mcall") and loopback[0].path in callee_paths(x)]:
+                    pc = env.flow(h).pathcond(n)
+                    extra = []
+                    for a in _atoms(pc):
+                        if a.startswith(("ok(", "some(")):
+                            continue
+                        if "get_leader(" in a or ".verify(" in a:
+                            continue
+                        extra.append(a)
+                    R.judge(not extra, prefix + ".Y5", key(h, "no proposal of an old round is filtered out before process_block" + tag), n["sp"], show(pc),
+                            "process_block is reached only under the additional condition(s) %s: a sync reply (a valid proposal of a past round) "
+                            "failing them is dropped, never stored, and every block parked on it waits forever" % extra)
 
 
 def check(P, R, tier):
     R.explanation = EXPLANATION
     R.assumptions = ["eventual delivery / peers answering is a liveness assumption, not decided", "store semantics: C16"]
     rules(P, R)
+    # Y8: requests, retries and replies travel over the best-effort SimpleSender (C13.E6)
+    from ..common import fold as _fold
+    _fold(R, P, "c13", ("C13.E6",), "C07.Y8", 4)
     # parked blocks resume through Store::notify_read: every waiter of a key must be woken by the write of that key, also
     # when several blocks wait for the same parent (C16.T3/T4)
     from ..common import fold
